@@ -399,11 +399,12 @@ struct Out {
     actions: Value,
     ints: Vec<String>,
     changed: Vec<bool>,
+    nested: Vec<Value>,
     msg: Option<String>,
 }
 impl Out {
     fn new() -> Self {
-        Out { out: "PANIC", code: None, rem: None, state: Value::Null, logs: vec![], rv: None, actions: Value::Null, ints: vec![], changed: vec![], msg: None }
+        Out { out: "PANIC", code: None, rem: None, state: Value::Null, logs: vec![], rv: None, actions: Value::Null, ints: vec![], changed: vec![], nested: vec![], msg: None }
     }
     fn fin(mut self, out: &'static str, rem: Option<u64>, msg: Option<String>) -> Self {
         self.out = out;
@@ -417,7 +418,7 @@ impl Out {
             "rem": self.rem.map(|r| r.to_string()), "state": self.state,
             "logs": if logs_null { Value::Null } else { json!(self.logs) },
             "rv": self.rv.as_ref().map(|r| hex(r)), "actions": self.actions,
-            "ints": self.ints, "changed": self.changed, "msg": msg});
+            "ints": self.ints, "changed": self.changed, "nested": self.nested, "msg": msg});
         writeln!(w, "{}", j).unwrap();
     }
 }
@@ -583,6 +584,67 @@ fn parse_response(r: Option<&Value>) -> Result<(v1::InvokeResponse, bool), Strin
     Ok((resp, upd))
 }
 
+/// Run the nested (re-entrant) script of a response on a fresh generation of the state.
+/// Returns (class, remaining energy, the new mutable state if the run succeeded).
+fn run_nested(outer: &Script, nv: &Value, ms: &mut trie::MutableState) -> Result<(u64, u64, Option<trie::MutableState>), String> {
+    let mut v = nv.clone();
+    v["ver"] = json!(1);
+    v["kind"] = json!("recv");
+    v["pv"] = json!(outer.pv);
+    v["pages"] = json!(1);
+    v["sender"] = json!(if outer.sender_acc { "acc" } else { "con" });
+    v["policy"] = json!(hex(&outer.policy));
+    v["energies"] = json!([]);
+    let nsc = parse_script(&v)?;
+    let bytes = build_module(&nsc)?;
+    let imp = v1::ConcordiumAllowedImports { support_upgrade: nsc.pv >= 5, enable_debug: false };
+    let art: Art1 = match guarded(|| instantiate::<v1::ProcessedImports, _>(ValidationConfig::V1, &imp, &bytes)) {
+        Err(p) => return Err(format!("PANIC nested instantiate: {}", p)),
+        Ok(Err(e)) => return Err(format!("nested builderr {:#}", e)),
+        Ok(Ok(m)) => Arc::new(m.artifact),
+    };
+    let energy = num(&nv["energy"])?;
+    let params = match nsc.pv {
+        4 => v1::ReceiveParams::new_p4(),
+        5 => v1::ReceiveParams::new_p5(),
+        6 => v1::ReceiveParams::new_p6(),
+        _ => v1::ReceiveParams::new_p7(),
+    };
+    let ctx: Ctx1 = v1::ReceiveContext { common: recv_ctx(&nsc), entrypoint: OwnedEntrypointName::new_unchecked("recv".into()) };
+    let r = guarded(|| {
+        let mut loader = new_loader();
+        let mut inner_ms = ms.make_fresh_generation(&mut loader);
+        let res = {
+            let inner = inner_ms.get_inner(&mut loader);
+            let st = v1::InstanceState::new(loader, inner);
+            v1::invoke_receive::<_, CompiledFunction, CompiledFunction, Art1, Ctx1, Ctx1, ()>(
+                art.clone(),
+                ctx,
+                v1::ReceiveInvocation {
+                    amount: Amount::from_micro_ccd(0),
+                    receive_name: ReceiveName::new_unchecked("c.recv"),
+                    parameter: &nsc.param,
+                    energy: InterpreterEnergy::new(energy),
+                },
+                st,
+                params,
+            )
+        };
+        (res.map_err(|e| e.to_string()), inner_ms)
+    });
+    match r {
+        Err(p) => Err(format!("PANIC nested: {}", p)),
+        Ok((Err(m), _)) => Err(format!("nested invalid return: {}", m)),
+        Ok((Ok(rr), inner_ms)) => Ok(match rr {
+            v1::ReceiveResult::Success { remaining_energy, .. } => (0, remaining_energy.energy, Some(inner_ms)),
+            v1::ReceiveResult::Reject { remaining_energy, .. } => (1, remaining_energy.energy, None),
+            v1::ReceiveResult::Trap { remaining_energy, .. } => (2, remaining_energy.energy, None),
+            v1::ReceiveResult::OutOfEnergy { .. } => (3, 0, None),
+            v1::ReceiveResult::Interrupt { remaining_energy, .. } => (2, remaining_energy.energy, None),
+        }),
+    }
+}
+
 enum StepErr {
     Invalid(String),
     TooMany,
@@ -646,7 +708,7 @@ fn run_v1_recv(art: &Art1, sc: &Script, energy: u64) -> Out {
                     }
                     return o.fin("success", Some(remaining_energy.energy), None);
                 }
-                v1::ReceiveResult::Interrupt { remaining_energy, state_changed, logs, config, interrupt, .. } => {
+                v1::ReceiveResult::Interrupt { remaining_energy, state_changed, logs, mut config, interrupt, .. } => {
                     if o.ints.len() >= 40 {
                         return o.fin("toomany", Some(remaining_energy.energy), None);
                     }
@@ -657,10 +719,47 @@ fn run_v1_recv(art: &Art1, sc: &Script, energy: u64) -> Out {
                     o.ints.push(hex(&ib));
                     o.logs.push(logs_seg(&logs));
                     o.changed.push(state_changed);
-                    let (resp, upd) = match parse_response(sc.resp.get(next_resp)) {
+                    let (resp, mut upd) = match parse_response(sc.resp.get(next_resp)) {
                         Ok(x) => x,
                         Err(m) => return o.fin("builderr", None, Some(m)),
                     };
+                    // environment actions while the contract is interrupted (verification hooks / re-entrancy)
+                    if let Some(rj) = sc.resp.get(next_resp) {
+                        if let Some(sl) = rj.get("setlock").and_then(|x| x.as_array()) {
+                            let key = hx(&sl[0]);
+                            let count = num(&sl[1]).unwrap_or(0) as u32;
+                            let r = guarded(|| {
+                                let mut l = new_loader();
+                                let inner = ms.get_inner(&mut l);
+                                inner.lock().verif_set_lock_count(&key, count)
+                            });
+                            if let Err(p) = r {
+                                return o.fin("PANIC", None, Some(format!("setlock: {}", p)));
+                            }
+                        }
+                        if let Some(nv) = rj.get("nested").filter(|x| x.is_object()) {
+                            match run_nested(sc, nv, &mut ms) {
+                                Err(m) if m.starts_with("PANIC") => return o.fin("PANIC", None, Some(m)),
+                                Err(m) => return o.fin("builderr", None, Some(m)),
+                                Ok((cls, rem, new_ms)) => {
+                                    o.nested.push(json!([cls, rem.to_string()]));
+                                    let commit = nv["commit"].as_bool().unwrap_or(false);
+                                    upd = false;
+                                    if let (true, Some(nms)) = (commit, new_ms) {
+                                        ms = nms;
+                                        upd = true;
+                                    }
+                                }
+                            }
+                        }
+                        if let Some(pad) = rj.get("pad").and_then(|x| num(x).ok()) {
+                            if pad > 0 {
+                                if let Err(p) = guarded(|| config.verif_pad_parameters(pad as usize)) {
+                                    return o.fin("PANIC", None, Some(format!("pad: {}", p)));
+                                }
+                            }
+                        }
+                    }
                     next_resp += 1;
                     step = guarded(|| {
                         v1::resume_receive::<_, ()>(config, resp, remaining_energy, &mut ms, upd, new_loader()).map_err(|e| match e {
